@@ -892,7 +892,7 @@ static void tune(const hx_plan_t *p, sim_params_t *sp)
     int nested = 0;
     for (int i = 0; i < p->nops; i++) if (p->ops[i].op == OP_TASK && ((p->ops[i].b >> 8) & 0xff)) nested = 1;
     long thr = hx_knob(p, "threshold", 0);
-    long dflt = nested && hx_knob(p, "nranks", 1) == 1 && thr >= 1 && thr <= 2 ? 24000000 : 80000000;
+    long dflt = nested && hx_knob(p, "nranks", 1) == 1 && thr >= 1 && thr <= 2 ? 24000000 : 48000000;
     /* plans with a task naming one tile in several parameters are shadowed as a whole by KF-DTD-REPEATED-TILE and often
      * hang: no point in paying 80 M steps of idle polling (up to 4 minutes of wall clock with 8 threads) for them */
     plan_to_shared(p);
